@@ -14,7 +14,7 @@ SCRIPT := <puller> <comp none|zstd> <fmt beve|raw> <open ok|err|cut> <verify ok|
   verify := panic / panics / panicv = verify panics with a String / &'static str / other payload;
             slow = accepts after a delay
   fault dN / pN := the caller's digest sink returns Err / panics once more than N bytes were fed
-  resp   := c:<B>:<0|1>  (chunk body, last flag) | e (error response) | x (connection cut)
+  resp   := c:<B>:<0|1>  (chunk body, last flag) | e (error response) | x (connection cut) | h (never answers)
   B      := <H> (hex) | g<seed>.<len> (`genBytes seed len`, for large bodies)
   fault  := N: the temp file takes N bytes and the write of the next one fails (the pulling child runs
             under RLIMIT_FSIZE = N with SIGXFSZ ignored: EFBIG); sync: every write succeeds and fsync
@@ -30,6 +30,9 @@ trace <i> SCRIPT :: <sys>…        -> <i> trace <accept|reject@pos> <match|expe
                                                  failed rename, unlink of the temp file, D = dest touched)
 kill <i> <syscall>:<N> SCRIPT :: <same|L:FNV>   -> <i> kill <ok|BAD>   (destination observed after SIGKILL on
                                                   entry to the N-th such syscall on the two paths)
+par <i> <N> <0|1> SCRIPT :: SCRIPT :: …     -> <i> | ret .. dest .. tmp .. | …   (async pulls run concurrently on a
+                                     runtime with N blocking threads, through one shared client or one each)
+cancel <i> <ms> SCRIPT :: <same|L:FNV>      -> <i> kill <ok|BAD>   (an async pull dropped by its caller after <ms>)
 seq <i> <old:H|none> SCRIPT :: SCRIPT :: …   -> <i> | ret .. dest <absent|L:FNV> tmp .. | …
                                      (one client, one destination: the state that outlives a call is the file
                                      system and whether an earlier step ran into a cut — then every call fails)
@@ -66,6 +69,7 @@ def bodyOf (s : String) : Option Bytes :=
 def respOf (s : String) : Option Resp :=
   if s = "e" then some .error
   else if s = "x" then some .cut
+  else if s = "h" then some .cut   -- the peer hangs: for the file system the same as a peer that is gone
   else match s.splitOn ":" with
     | ["c", h, l] =>
       match bodyOf h, l with
@@ -101,7 +105,16 @@ def parseScript (ws : List String) : Option (Parsed × List String) :=
   | pu :: co :: fm :: op :: ve :: tr :: de :: st :: dc :: wf :: "wire" :: rest =>
     let wireWs := rest.takeWhile (· ≠ "::")
     let after := (rest.dropWhile (· ≠ "::")).drop 1
-    match pullerOf ((pu.splitOn "@").headD ""), compOf co, allSome (wireWs.map respOf), decOf dc with
+    -- `@wl<N>`: the pulling WebSocket client refuses inbound frames over N bytes; a chunk response is a
+    -- 48-byte header, a 1-byte query and the body: the first oversized one ends the connection
+    let wl : Option Nat := ((pu.splitOn "@").filterMap fun x =>
+      if x.startsWith "wl" ∧ (x.drop 2).toString.isNat then some (natOf (x.drop 2).toString) else none).head?
+    let limitWire : Wire → Wire := fun w => match wl with
+      | none => w
+      | some n => w.map fun r => match r with
+        | .chunk b l => if 49 + b.length > n then .cut else .chunk b l
+        | r => r
+    match pullerOf ((pu.splitOn "@").headD ""), compOf co, (allSome (wireWs.map respOf)).map limitWire, decOf dc with
     | some p, some comp, some wire, some dec =>
       if (fm = "beve" ∨ fm = "raw") ∧ (op = "ok" ∨ op = "err" ∨ op = "cut") ∧ (ve = "ok" ∨ ve = "rej" ∨ ve = "panic" ∨ ve = "panics" ∨ ve = "panicv" ∨ ve = "slow")
           ∧ (de = "old" ∨ de = "none" ∨ de = "dir" ∨ de = "olds" ∨ de = "nones" ∨ de = "noparent" ∨ de = "symparent") ∧ tr.isNat ∧ (st = "-" ∨ st.isNat) ∧ (wf = "-" ∨ wf = "sync" ∨ wf.isNat ∨ ((wf.startsWith "d" ∨ wf.startsWith "p") ∧ (wf.drop 1).toString.isNat)) then
@@ -143,15 +156,23 @@ def sizesKnown (q : Parsed) : Bool :=
 def eraseSizes (t : List Sys) : List Sys :=
   t.filter fun x => match x with | .writeTmp _ => false | _ => true
 
+/-- The destination before a pull is abstract ("whatever was there"): it is unchanged by `ops` iff it
+comes out as it went in from two different starting contents (a published content that happens to equal
+one marker cannot equal both). -/
+def destWord (tmp0 : Option Bytes) (ops : List Op) : String :=
+  let a := runOps ⟨some [0], tmp0⟩ ops
+  let b := runOps ⟨some [1], tmp0⟩ ops
+  if a.dest = some [0] ∧ b.dest = some [1] then "same" else match a.dest with
+    | some c => digest c
+    | none => "gone"
+
 def runOf (q : Parsed) : Run := run Gen.Commit.steps q.p q.s q.codec
 
 def scriptObs (q : Parsed) : String :=
   let r := runOf q
   -- the destination before the pull is abstract: `[0]` stands for "whatever was there"
   let fs := runOps ⟨some [0], if q.stale then some [0xEE, 0xEE] else none⟩ r.ops
-  let dest := if fs.dest = some [0] then "same" else match fs.dest with
-    | some c => digest c
-    | none => "gone"
+  let dest := destWord (if q.stale then some [0xEE, 0xEE] else none) r.ops
   -- a panicking `verify` has the file-system effect of a rejecting one (the unwinding drops the guard);
   -- the call unwinds instead of returning `Err` exactly when `verify` is reached
   let reached := q.verifyPanics && q.p.verifies &&
@@ -173,10 +194,7 @@ def scriptObs (q : Parsed) : String :=
 def killStates (q : Parsed) : List String :=
   let r := runOf q
   (List.range (r.ops.length + 1)).map fun k =>
-    let fs := runOps ⟨some [0], none⟩ (crash k r.ops)
-    if fs.dest = some [0] then "same" else match fs.dest with
-      | some c => digest c
-      | none => "gone"
+    destWord none (crash k r.ops)
 
 /-- The pull of this script runs into a connection cut: the client is dead afterwards. -/
 def hitsCut (q : Parsed) : Bool :=
@@ -251,6 +269,19 @@ def step (st : Unit) (ws : List String) : Unit × String :=
         (st, joinSp [idx, "trace", acc, if same then "match" else "expected:" ++ ",".intercalate (want.map showSys)])
       | none => (st, idx ++ " bad-op")
     | none => (st, idx ++ " bad-op")
+  | "par" :: idx :: _bp :: _shared :: rest =>
+    -- concurrent pulls into different destinations: each as if alone (`pulls_do_not_interfere`)
+    match parseMany rest with
+    | some qs => (st, joinSp (idx :: qs.map fun q =>
+        let r := runOf q
+        let fs := runOps ⟨some [0], none⟩ r.ops
+        joinSp ["| ret", showRet r.ret, "dest", destWord none r.ops, "tmp", if fs.tmp.isSome then "1" else "0"]))
+    | none => (st, idx ++ " bad-op")
+  | "cancel" :: idx :: _ms :: rest =>
+    -- a pull dropped by its caller: the destination is one of the states a kill can leave
+    match parseScript rest with
+    | some (q, [saw]) => (st, joinSp [idx, "kill", if (killStates q).contains saw then "ok" else "BAD"])
+    | _ => (st, idx ++ " bad-op")
   | "seq" :: idx :: init :: rest =>
     let fs0 : Option FS := if init = "none" then some ⟨none, none⟩
       else if init.startsWith "old:" then (bytesOfHex (init.drop 4).toString).map fun b => ⟨some b, none⟩
@@ -273,8 +304,7 @@ def step (st : Unit) (ws : List String) : Unit × String :=
           let short := fun (q : Parsed) =>
             let r := runOf q
             let fs := runOps ⟨some [0], none⟩ r.ops
-            joinSp ["ret", showRet r.ret, "dest", (if fs.dest = some [0] then "same" else match fs.dest with
-              | some c => digest c | none => "gone"), "tmp", if fs.tmp.isSome then "1" else "0"]
+            joinSp ["ret", showRet r.ret, "dest", destWord none r.ops, "tmp", if fs.tmp.isSome then "1" else "0"]
           (st, joinSp [idx, "A", short qa, "B", short qb])
       | _ => (st, idx ++ " bad-op")
     | _, _, _ => (st, idx ++ " bad-op")
